@@ -159,8 +159,11 @@ theorem onTimeout_win {s s' : St} {i : Inp} {l : List (Nat × List Nat)} (h : on
     exact k1.trans (k2.trans (setTimer_win h2 k2.1))
 
 theorem discardReset_win {s : St} (e b : Nat) (hw : WinOk s) : Shrinks s (discardReset s e b) := by
-  unfold discardReset
-  apply shrinks_fields hw <;> simp
+  unfold discardReset markDiscarded
+  simp only
+  split
+  · apply shrinks_fields hw <;> simp
+  · split <;> (apply shrinks_fields hw <;> simp)
 
 theorem discardEpoch_win {s s' : St} {e a b : Nat} (h : discardEpoch s e a b = .ok s') (hw : WinOk s) :
     Shrinks s s' := by
